@@ -90,6 +90,8 @@ def create_tree_using_stacks(g: Grammar, r: ListWrapper, failures_limit=100):
             # print("..........")
             # print(target_type, "|", stacks)
             if is_abstract(target_type):
+                if target_type not in g.alternatives:
+                    raise IndexError()  # an abstract type without productions: nothing to pop, a failed attempt
                 concrete = r.choice(g.alternatives[target_type])
                 if stacks[concrete]:
                     v = stacks[concrete].pop(0)
